@@ -216,7 +216,7 @@ class ndarray_impl(metaclass=_NDMeta):
     def __bool__(self):
         x = self._single()
         if not is_sym(x):
-            return bool(x)
+            return builtins.bool(x)
         b = E.to_bool(x, self.dtype)
         if CTX.ex is None:
             raise ShimUnsupported('branch on a symbolic condition without an executor')
